@@ -197,6 +197,70 @@ func checkMustRecord(p *Program, r *Report, a *updateAnchors, rule string) {
 		}
 	}
 	r.Discharge(rule, name+"/record", posOf(p, records[0]), "a record keyed by the loop element dominates every latch of the loop over the added hashes", true)
+	if rule == "R11a" {
+		checkRecordAfterLift(p, r, "R11g", add, header, records)
+	} else {
+		checkRecordAfterLift(p, r, "R07e", add, header, records)
+	}
+}
+
+// checkRecordAfterLift (R11g): additions that overwrite empty roots lift the
+// new leaf to a higher position before it is merged. Where the add loop calls
+// a position-moving function (pos, del, rows) -> (pos, error) on the leaf's
+// position, the position recorded for the leaf itself must be computed after
+// that call - it has to depend on its result.
+func checkRecordAfterLift(p *Program, r *Report, rid string, add *ssa.Function, header *ssa.BasicBlock, records []ssa.Instruction) {
+	r.Rule(rid, "RECORD-AFTER-LIFT: the position recorded for an added leaf depends on the result of the call that lifts the leaf over the empty roots the additions overwrite")
+	name := p.FuncName(add)
+	var lifts []*ssa.Call
+	for _, b := range add.Blocks {
+		if !header.Dominates(b) {
+			continue
+		}
+		for _, in := range b.Instrs {
+			c, ok := in.(*ssa.Call)
+			if !ok {
+				continue
+			}
+			sc := c.Common().StaticCallee()
+			if sc == nil || !p.owns(sc) {
+				continue
+			}
+			sig := sc.Signature
+			if sig.Params().Len() == 3 && isUint64(sig.Params().At(0).Type()) && isUint64(sig.Params().At(1).Type()) && isUint8(sig.Params().At(2).Type()) &&
+				sig.Results().Len() == 2 && isUint64(sig.Results().At(0).Type()) && isErrorType(sig.Results().At(1).Type()) {
+				lifts = append(lifts, c)
+			}
+		}
+	}
+	key := name + "/record-position"
+	if len(lifts) == 0 {
+		r.Discharge(rid, key, p.Pos(add.Pos()), "the add loop lifts no position before recording", false)
+		return
+	}
+	for _, rec := range records {
+		mu, ok := rec.(*ssa.MapUpdate)
+		if !ok {
+			continue
+		}
+		dep := derivesFrom(mu.Value, func(x ssa.Value) bool {
+			ex, ok := x.(*ssa.Extract)
+			if !ok {
+				return false
+			}
+			for _, l := range lifts {
+				if ex.Tuple == ssa.Value(l) {
+					return true
+				}
+			}
+			return false
+		}, 10)
+		if dep {
+			r.Discharge(rid, key, posOf(p, rec), "the recorded position flows from the result of the lifting call", true)
+			return
+		}
+	}
+	r.Violate(rid, key, posOf(p, records[0]), "the position recorded for the added leaf does not depend on the call that lifts it over overwritten empty roots: a leaf that ends as a lone root above row 0 is reported at its unlifted position", "in "+name)
 }
 
 func checkPrevCount(p *Program, r *Report, a *updateAnchors) {
@@ -469,6 +533,38 @@ func runC07(p *Program, r *Report) {
 		return
 	}
 	r.Discharge("R07c", key, posOf(p, add.call), "remove phase dominates the add phase, which receives the remove phase's result", true)
+	r.Rule("R07f", "FULL-HASH-KEYS: the cached-proof update and undo never identify a leaf by a truncated hash (the 12-byte map key of the pointer forest): two different leaves with a common prefix would be taken for each other")
+	{
+		var entries []*ssa.Function
+		for _, n := range []string{"(*Proof).Update", "(*Proof).Undo"} {
+			if f := p.Func(n); f != nil {
+				entries = append(entries, f)
+			}
+		}
+		var hit ssa.Instruction
+		nCalls := 0
+		for _, g := range sortedFuncs(p, p.StaticReach(entries...)) {
+			for _, sc := range callsIn(p, g) {
+				nCalls++
+				res := sc.call.Common().Signature().Results()
+				for i := 0; i < res.Len(); i++ {
+					if nt := namedOf(res.At(i).Type()); nt != nil && nt.Obj().Pkg() == p.Types {
+						if arr, ok := nt.Underlying().(*types.Array); ok && arr.Len() < 32 {
+							if bt, ok := arr.Elem().Underlying().(*types.Basic); ok && bt.Kind() == types.Byte && hit == nil {
+								hit = sc.call
+							}
+						}
+					}
+				}
+			}
+		}
+		key := "(*Proof).Update+Undo/truncated-hash"
+		if hit != nil {
+			r.Violate("R07f", key, posOf(p, hit), "a truncated hash is computed on the cached-proof path (in "+p.FuncName(hit.Parent())+"): leaves are identified by less than their full hash", "in "+p.FuncName(hit.Parent()))
+		} else {
+			r.Discharge("R07f", key, p.Pos(upd.Pos()), fmt.Sprintf("none of the %d calls reachable from the cached-proof update and undo returns a truncated hash", nCalls), true)
+		}
+	}
 	r.Rule("R07d", "NO-ARITHMETIC-POSITIONS: in the add phase of the cached-proof update no position list computed from the leaf count selects from the update-data nodes (remembered leaves are found by hash)")
 	if g := add.call.Common().StaticCallee(); g != nil {
 		checkNoArithmeticPositions(p, r, "R07d", g)
